@@ -138,6 +138,32 @@ def grammar() -> Grammar:
     for wn, w in wrappers.items():
         for bn, b in bodies.items():
             q.append(A(f"setbody.{wn}.{bn}", 1, w.format(body=b)))
+    # a star over every order of {table, derived table} items and every way of joining them
+    for jn, j in (("cross", " CROSS JOIN {r}"), ("comma", ", {r}"), ("on", " JOIN {r} ON TRUE"), ("left", " LEFT JOIN {r} ON TRUE")):
+        for on_, parts in (("derived_then_table", ("(SELECT a FROM x) AS s1", "z AS s2")), ("table_then_derived", ("z AS s2", "(SELECT a FROM x) AS s1")),
+                           ("derived_table_derived", ("(SELECT a FROM x) AS s1", "z AS s2", "(SELECT b FROM y) AS s3")),
+                           ("table_derived_table", ("z AS s2", "(SELECT a FROM x) AS s1", "y AS s3"))):
+            q.append(A(f"star_{on_}.{jn}", 1, "SELECT * FROM " + parts[0] + "".join(j.format(r=r) for r in parts[1:])))
+    # scope-name collisions: a WITH nested inside a derived table / set operand / subquery whose CTE is named like a real table
+    # (or like an outer CTE), next to a SIBLING that reads the real table, with and without a top-level WITH, in both orders.
+    # What each name denotes at each point is decided by DuckDB (rows and output names of the original vs the qualified text).
+    tops = {"none": "", "base": "WITH base AS (SELECT a, b FROM x) ", "shadow_y": "WITH y AS (SELECT a, b FROM x) "}
+    for tn, top in tops.items():
+        for n in ("y", "z", "t", "base"):
+            for src in ("x", "base"):
+                if (src == "base" or n == "base") and tn != "base":
+                    continue
+                nested = f"(WITH {n} AS (SELECT a FROM {src}) SELECT a FROM {n}) AS s1"
+                for m in ("y", "z"):
+                    for sn, sib in (("dt", f"(SELECT * FROM {m}) AS s2"), ("tbl", f"{m} AS s2")):
+                        # (a bare star over `derived table, then table` is the separate shape star_derived_then_table)
+                        q.append(A(f"scope.{tn}.{n}.{src}.{m}.{sn}.ab", 1, f"{top}SELECT {'*' if sn == 'dt' else 's1.*, s2.*'} FROM {nested} CROSS JOIN {sib}"))
+                        q.append(A(f"scope.{tn}.{n}.{src}.{m}.{sn}.ba", 1, f"{top}SELECT * FROM {sib} CROSS JOIN {nested}"))
+                    q.append(A(f"scope.{tn}.{n}.{src}.{m}.union", 1, f"{top}(WITH {n} AS (SELECT a FROM {src}) SELECT a FROM {n}) UNION ALL SELECT c FROM {m}"))
+                    q.append(A(f"scope.{tn}.{n}.{src}.{m}.union_rev", 1, f"{top}SELECT c FROM {m} UNION ALL (WITH {n} AS (SELECT a FROM {src}) SELECT a FROM {n})"))
+                    q.append(A(f"scope.{tn}.{n}.{src}.{m}.in", 1, f"{top}SELECT a FROM x WHERE a IN (WITH {n} AS (SELECT a FROM {src}) SELECT a FROM {n}) AND b IN (SELECT b FROM {m})"))
+                    q.append(A(f"scope.{tn}.{n}.{src}.{m}.scalar", 1, f"{top}SELECT (WITH {n} AS (SELECT a FROM {src}) SELECT MAX(a) FROM {n}) AS mx, c FROM {m}"))
+                    q.append(A(f"scope.{tn}.{n}.{src}.{m}.cte_body", 1, f"{top.rstrip() + ', ' if top else 'WITH '}o AS (WITH {n} AS (SELECT a FROM {src}) SELECT a FROM {n}) SELECT * FROM o CROSS JOIN {m} AS s2"))
     return Grammar({"q": q, "col": col})
 
 
@@ -325,6 +351,8 @@ def worker(shard, nshards, plan):
                     got = None
                 if got is not None and got != want and not (tags[0] == "star_using" and sorted(got) == sorted(want)):
                     record(f"star_order|{tags[0]}", dialect, sql, f"star expanded to {got}, schema order gives {want}")
+            elif tags and (tags[0].startswith("scope.") or tags[0].startswith("star_derived_") or tags[0].startswith("star_table_")):
+                pass   # stars over nested scopes: rows and output names are compared on DuckDB below
             else:
                 try:
                     before = [D.normalize_identifier(exp.to_identifier(n)).name if n else n for n in tree.named_selects]
